@@ -45,6 +45,8 @@ pub struct InjectedPanic(pub Cb, pub u32);
 
 #[derive(Clone, Debug, Default)]
 pub struct OpEvents {
+    /// identities created while the op ran (temporaries of the library are tolerated)
+    pub created: Vec<u32>,
     pub drops: Vec<u32>,
     pub zst_drops: u32,
     pub clones: Vec<(u32, u32)>,
@@ -74,10 +76,10 @@ impl Registry {
             zst_live: 0,
             zst_created: 0,
             ev: [
-                OpEvents { drops: Vec::new(), zst_drops: 0, clones: Vec::new(), zst_clones: 0, cmps: 0 },
-                OpEvents { drops: Vec::new(), zst_drops: 0, clones: Vec::new(), zst_clones: 0, cmps: 0 },
-                OpEvents { drops: Vec::new(), zst_drops: 0, clones: Vec::new(), zst_clones: 0, cmps: 0 },
-                OpEvents { drops: Vec::new(), zst_drops: 0, clones: Vec::new(), zst_clones: 0, cmps: 0 },
+                OpEvents { created: Vec::new(), drops: Vec::new(), zst_drops: 0, clones: Vec::new(), zst_clones: 0, cmps: 0 },
+                OpEvents { created: Vec::new(), drops: Vec::new(), zst_drops: 0, clones: Vec::new(), zst_clones: 0, cmps: 0 },
+                OpEvents { created: Vec::new(), drops: Vec::new(), zst_drops: 0, clones: Vec::new(), zst_clones: 0, cmps: 0 },
+                OpEvents { created: Vec::new(), drops: Vec::new(), zst_drops: 0, clones: Vec::new(), zst_clones: 0, cmps: 0 },
             ],
             cb_calls: [0; NCB],
             fault: None,
@@ -155,6 +157,8 @@ fn fresh_id(width: usize, st: IdState) -> u32 {
             id
         };
         r.set(id, st);
+        let t = tix();
+        r.ev[t].created.push(id);
         id
     })
 }
